@@ -33,7 +33,7 @@ def run(ctx):
     import random
     prnd = random.Random(ctx.seed + 1)
     inside = [s for s in scs if any(c > 0 and s["stream"][c - 1] != "d" for c in s["cuts"])]
-    for pause, n in ((150, 64 if ctx.quick else 600), (1100, 0 if ctx.quick else 48), (11000, 0 if ctx.quick else 8)):
+    for pause, n in ((150, 64 if ctx.quick else 600), (1100, 12 if ctx.quick else 48), (11000, 0 if ctx.quick else 8)):
         for s in prnd.sample(inside, min(n, len(inside))):
             scs.append(dict(s, pause=pause))
     # a slow consumer: the call-back takes a few ms while the writer has long finished and closed (what was read ahead
